@@ -60,6 +60,7 @@ pub fn transitive_family() -> Vec<Prog> {
     vec![st(Write(0, Src::One, e))],
     vec![st(Read(1, e)), st(Write(0, Src::Acc, e))],
     vec![st(Read(1, e)), sg(1, Write(0, Src::One, e))],
+    vec![st(Read(1, e)), st(WriteDecl(0, Src::Acc, e))],
   ];
   let mids: Vec<Vec<Stmt>> = vec![
     vec![st(Req(2, a))],
